@@ -113,7 +113,11 @@ def jobs(tier, seed):
             plan = list(p) + [c for c in DECK if c not in p]
             out.append({'family': f'1street-{n}p-manual-default-show-kill',
                         'cfg': C.custom(stacks, C.KUHN_1, hand_types=('KuhnAny', 'JQLow'), antes=1, autos=manual, plan=plan),
-                        'opts': {'players': True}})
+                        'opts': {'players': True, 'show_players': True}})
+            # high only: a player can be beaten outright by a shown hand while a later one still ties or wins
+            out.append({'family': f'1street-{n}p-manual-default-show-kill-high-only',
+                        'cfg': C.custom(stacks, C.KUHN_1, hand_types=('KuhnAny',), antes=1, autos=manual, plan=plan),
+                        'opts': {'players': True, 'show_players': True}})
     # two hole cards: tournament partial-show refusal + auto decisions
     two_hole = [(False, (False, False), 0, False, 'POSITION', 1, None), (False, (), 1, False, 'POSITION', 1, None)]
     for stacks in [(3, 4), (2, 5)]:
@@ -122,7 +126,7 @@ def jobs(tier, seed):
             for mode in ('tournament', 'cash'):
                 out.append({'family': f'2hole-{mode}', 'cfg': C.custom(stacks, two_hole, hand_types=('KuhnAny', 'JQLow'), antes=1,
                                                                           autos=manual, plan=plan, mode=mode),
-                            'opts': {'runouts': (None,)}})
+                            'opts': {'runouts': (None,), 'show_players': True}})
     for j in out:
         j.setdefault('state_cap', 200000)
         j.setdefault('time_cap', 120)
